@@ -103,7 +103,17 @@ static Verdict run_c17(const Case &c)
   }
   else if (in_k == "missing")
     in_path = "does-not-exist.dat";
-  if (in_k != "none" && in_k != "missing")
+  else if (in_k == "dir")
+    in_path = ".";
+  else if (in_k == "subdir")
+  {
+    mkdir((dir + "/sub.d").c_str(), 0755);
+    in_path = "sub.d";
+  }
+  else if (in_k == "devnull")
+    in_path = "/dev/null";
+  bool odd_input = in_k == "dir" || in_k == "subdir" || in_k == "devnull";
+  if (in_k != "none" && in_k != "missing" && !odd_input)
     write_file(dir + "/in" + (in_is_wenc ? ".wenc" : ".dat"), std::string(in_bytes.begin(), in_bytes.end()));
   std::string out_path;
   if (out_k == "ok")
@@ -290,6 +300,13 @@ static Verdict run_c17(const Case &c)
     return bad("killed by signal " + std::to_string(r.sig) + (r.sig == SIGSEGV ? " (SIGSEGV)" : r.sig == SIGABRT ? " (SIGABRT)" : ""));
   if (r.err.find("AddressSanitizer") != std::string::npos || r.err.find("runtime error:") != std::string::npos || r.code == 99 || r.code == 98)
     return bad("sanitizer report: " + r.err.substr(0, 300));
+  if (odd_input)
+  {
+    // a directory or device as input: whether "encrypting" it counts as success is not stated, so only the
+    // first clause is judged here - the program terminates without crashing
+    v.classes.push_back("odd_input_no_crash_clause_only");
+    return v;
+  }
   bool ok = r.code == 0;
   if (ok != expect_ok)
     return bad(std::string("exit status ") + std::to_string(r.code) + " but the operation " + (expect_ok ? "should have succeeded" : "did not succeed"));
@@ -400,6 +417,8 @@ static Case gen_c17()
       in = k < 8 ? "none" : k < 50 ? "wenc" : k < 70 ? "tampered" : k < 78 ? "missing" : k < 88 ? "longwenc" : "plain";
     if (info_mode && (in == "missing"))
       in = "none";
+    if (g::coin(6))
+      in = g::oneof<const char *>({"dir", "subdir", "devnull"});
     c.set("input", in);
   }
   {
@@ -509,6 +528,9 @@ static void fixed_c17(Ctx &ctx)
       mk({{"cmode", a.c_str()}, {"hmode", b.c_str()}, {"key", "right"}, {"output", "ok"}});
       mk({{"modes", "d"}, {"input", "wenc"}, {"key", "right"}, {"output", "ok"}, {"file_cmode", a.c_str()}, {"file_hmode", b.c_str()}});
     }
+  for (const char *m2 : {"e", "d", "v"})
+    for (const char *odd : {"dir", "subdir", "devnull"})
+      mk({{"modes", m2}, {"input", odd}, {"key", "right"}, {"output", "ok"}});
   mk({{"modes", "V"}, {"input", "none"}});
   mk({{"modes", "h"}, {"input", "none"}});
 }
